@@ -2,8 +2,9 @@
 import importlib
 
 PROPS = {
-    "C04": [("u_mls", "quick"), ("u_input", "quick"), ("u_pcore", "quick"), ("u_tree", "quick")],
-    "C12": [("u_mls", "quick"), ("u_input", "quick"), ("u_pcore", "quick"), ("u_tree", "quick")],
+    "C11": [("u_bp", "quick")],
+    "C04": [("u_mls", "quick"), ("u_input", "quick"), ("u_pcore", "quick"), ("u_tree", "quick"), ("u_kind", "quick")],
+    "C12": [("u_mls", "quick"), ("u_input", "quick"), ("u_pcore", "quick"), ("u_tree", "quick"), ("u_kind", "quick")],
 }
 
 
